@@ -768,6 +768,7 @@ def r_dispatch(ctx: Ctx, rule: str):
     sc = ctx.an.scope(f)
     mp = f.param_names()[1]
     kw = f.node.args.kwarg.arg if f.node.args.kwarg else None
+    kw_root = kw
     V = ctx.vals
     # the loop over the method's signature: in this function or in a helper spliced into it
     heads = ctx.distinct_sites(ctx.nodes(f, lambda n: n.op == "iter" and isinstance(n.ast, ast.For)))
@@ -784,8 +785,14 @@ def r_dispatch(ctx: Ctx, rule: str):
     pos_name = var_name = None
     for c in calls:
         a = c.ast.args
+
+        def is_kwargs(x: ast.AST) -> bool:
+            # the session's own **kwargs dictionary - directly, or handed through a helper and back (as a component of its result)
+            fr_, env_, leaf = V.trace(c.func, c.env, x)
+            return fr_ is f and not env_ and isinstance(leaf, ast.Name) and leaf.id == kw
+
         ok = len(a) == 3 and V.is_param(f, a[0], mp) and all(isinstance(x, ast.Starred) for x in a[1:]) \
-            and len(c.ast.keywords) == 1 and c.ast.keywords[0].arg is None and isinstance(c.ast.keywords[0].value, ast.Name) and c.ast.keywords[0].value.id == kw
+            and len(c.ast.keywords) == 1 and c.ast.keywords[0].arg is None and is_kwargs(c.ast.keywords[0].value)
         srcs = [V.trace_var(c.func, c.env, x.value) for x in a[1:]] if ok else []
         ok = ok and all(isinstance(leaf, ast.Name) for _fr, _env, leaf in srcs)
         rep.ob(rule, "the member is called as method(*positional, *var_positional, **remaining keywords)", ok, node=c)
@@ -803,17 +810,34 @@ def r_dispatch(ctx: Ctx, rule: str):
         lf = lp_node.func
         # classify the branches of the loop body
         facts = {"self": False, "pos": False, "var": False, "pos_kinds": set()}
+        lenv = lp_node.env
+
+        def in_root_terms(st_: ast.stmt) -> str:
+            # the statement with the helper's parameters replaced by what the session passed for them (`pool` -> `self._pool`)
+            class R(ast.NodeTransformer):
+                def visit_Name(self, x):
+                    if lenv and x.id in lenv and isinstance(x.ctx, ast.Load) and not ctx.an.scope(lf).defs.get(x.id):
+                        fr_, _e, leaf = V.trace(lf, lenv, x)
+                        if fr_ is f and isinstance(leaf, (ast.Name, ast.Attribute)):
+                            return leaf
+                    return x
+            import copy
+            return ast.unparse(R().visit(copy.deepcopy(st_)))
+
+        kw_l = kw
+        if lenv:
+            kw_l = kw_root  # (after the substitution the dictionary is spelled as in the session's method again)
         for node in ast.walk(lp):
             if isinstance(node, ast.If):
                 cond = V.canon(lf, node.test).replace(" ", "")
-                body = " ".join(ast.unparse(s) for s in node.body).replace(" ", "")
+                body = " ".join(in_root_terms(s) for s in node.body).replace(" ", "")
                 if cond in (f"{pv}.name=='self'", f"'self'=={pv}.name"):
                     facts["self"] = body == f"{pos_name}.append(self._pool)"
                 elif "kind" in cond and ("POSITIONAL_OR_KEYWORD" in cond or "POSITIONAL_ONLY" in cond):
                     facts["pos_kinds"] = set(re.findall(r"(POSITIONAL_OR_KEYWORD|POSITIONAL_ONLY|VAR_POSITIONAL|KEYWORD_ONLY|VAR_KEYWORD)", cond))
-                    facts["pos"] = body == f"{pos_name}.append({kw}.pop({pv}.name))"
+                    facts["pos"] = body == f"{pos_name}.append({kw_l}.pop({pv}.name))"
                 elif "VAR_POSITIONAL" in cond and "POSITIONAL_OR_KEYWORD" not in cond:
-                    facts["var"] = body == f"{var_name}={kw}.pop({pv}.name)"
+                    facts["var"] = body == f"{var_name}={kw_l}.pop({pv}.name)"
         rep.ob(rule, "a parameter named self receives the pool instance, first", facts["self"], func=f, construct="branch: param.name == 'self'")
         rep.ob(rule, "exactly the POSITIONAL_ONLY / POSITIONAL_OR_KEYWORD parameters are passed positionally, in signature order",
                facts["pos"] and facts["pos_kinds"] == {"POSITIONAL_OR_KEYWORD", "POSITIONAL_ONLY"}, func=f, construct="branch: positional kinds", detail=str(sorted(facts["pos_kinds"])))
@@ -1046,6 +1070,11 @@ def r_return_or_exception(ctx: Ctx, rule: str):
         if res_leaves or not in_handler:
             ok = bool(res_leaves) and all(any(u.ast is x for u in ucalls) for x in res_leaves)
             rep.ob(rule, "the member's own result is returned", ok, node=r)
+    # "an Exception it raises is returned - not raised" covers the call AND the await of a coroutine method: nothing but a
+    # cancellation may leave return_or_exception by raising (else the command kills the session instead of being answered)
+    escaping = [x for x in g.raise_exits.values() if x.pred and x.kind == "x"]
+    rep.ob(rule, "every Exception of the member - raised by the call or while it is awaited - is returned, none escapes", not escaping, func=f,
+           construct="raising exits (cancellation aside)", detail=", ".join(sorted({x.tok[0].rpartition(".")[2] for x in escaping})))
     hs = ctx.nodes(f, lambda n: n.op == "handler")
     ok = any(any(ctx.hier.canon(t) == EXCEPTION for t in h.types) for h in hs)
     rep.ob(rule, "Exception (and not BaseException / a narrower class) is what is converted into a reply", ok and all(all(ctx.hier.canon(t) == EXCEPTION for t in h.types) for h in hs),
@@ -1431,6 +1460,24 @@ def r_surface(ctx: Ctx, rule: str):
         snv = src_lp.target.elts[0].id if isinstance(src_lp.target, ast.Tuple) and src_lp.target.elts and isinstance(src_lp.target.elts[0], ast.Name) else nv
         # the skip conditions of the members loop: one `if A or (B and C): continue` or several `if ...: continue` in a row
         skip = [n for n in src_lp.body if isinstance(n, ast.If) and not n.orelse and n.body and isinstance(n.body[-1], ast.Continue) and len(n.body) == 1]
+
+        def only_other_kinds(s_: ast.If) -> bool:
+            """this `continue` is reached only for a member that is neither a function nor a property (e.g. `if subparser is None:
+            continue` after a helper that returns None for such a member): no function / property is hidden by it"""
+            cn = [n for n in g.nodes if n.op == "continue" and n.ast is s_.body[-1]]
+            if not cn or src_fn is not f:
+                return False
+            kinds = [t for t in ctx.nodes(f, lambda n: n.op == "test") if ast.unparse(t.ast).replace(" ", "") in (f"isfunction({mv})", f"inspect.isfunction({mv})", f"isinstance({mv},property)")
+                     or (t.env and any(ctx.vals.canon_at(t.func, t.env, t.ast).replace(" ", "") == k_ for k_ in (f"isfunction({mv})", f"isinstance({mv},property)")))]
+            if len({ast.unparse(t.ast) for t in kinds}) < 2:
+                return False
+            heads = {n for n in g.nodes if n.op == "iter" and n.ast is lp}
+            # within one iteration: the continue cannot be reached after a kind test came out true, and is reachable at all
+            via_true = reach([b for t in kinds for b, lab in t.succ if lab[0] == "T"], avoid=heads)
+            bypass = reach([b for h in heads for b, lab in h.succ if lab[0] == "T"], avoid=heads | set(kinds))  # reached without any kind test
+            return not any(c in via_true for c in cn) and not any(c in bypass for c in cn) and any(c in reach([g.entry]) for c in cn)
+
+        skip = [s_ for s_ in skip if not only_other_kinds(s_)]
         conds = set()
         for s_ in skip:
             d_ = dnf(ctx, src_fn, src_env, s_.test)
